@@ -232,3 +232,11 @@ impl DevInputWriter {
     DevInputWriter { fd }
   }
 }
+
+// Same for the reader: a simulator-owned descriptor instead of /dev/input/eventN.
+#[cfg(ellbur_totalmapper_verif)]
+impl DevInputReader {
+  pub fn verif_from_fd(fd: RawFd) -> DevInputReader {
+    DevInputReader { fd }
+  }
+}
